@@ -30,13 +30,13 @@ theorem gen_stepE_eq (s : Slot) (f : Bytes) (hf : AllBytes f) : Gen.decodeRxFram
   · simp [Gen.decodeRxFrameE, step] <;> rfl
   · have hb0 : b0 < 256 := hf b0 (by simp)
     cases hd : s.data <;>
-      simp [Gen.decodeRxFrameE, step, bitsBE_0_4, hb0, slice, getItem, hd, Int.natCast_inj]
+      simp [Gen.decodeRxFrameE, step, py_rt, hb0, slice, getItem, hd, Int.natCast_inj]
     all_goals (repeat' split)
     all_goals gen_leaf
   · have hb0 : b0 < 256 := hf b0 (by simp)
     have hb1 : b1 < 256 := hf b1 (by simp)
     cases hd : s.data <;>
-      simp [Gen.decodeRxFrameE, step, bitsBE_0_4, bitsBE_4_12, hb0, hb1, slice, getItem, hd, Int.natCast_inj]
+      simp [Gen.decodeRxFrameE, step, py_rt, hb0, hb1, slice, getItem, hd, Int.natCast_inj]
     all_goals (repeat' split)
     all_goals gen_leaf
 
